@@ -199,6 +199,8 @@ pub fn window<R>(f: impl FnOnce() -> R) -> R {
     r
 }
 pub fn set_window(on: bool) { WINDOW.store(on, SeqCst); }
+/// Runs `f` (harness bookkeeping) outside the accounting window, restoring the window state afterwards.
+pub fn pause<R>(f: impl FnOnce() -> R) -> R { let w = WINDOW.swap(false, SeqCst); let r = f(); WINDOW.store(w, SeqCst); r }
 /// The block (start, size) containing `addr`, if any -- linear probe over the table (slow; used for sampled checks only).
 #[allow(static_mut_refs)]
 pub fn block_containing(addr: usize) -> Option<(usize, usize)> {
